@@ -40,6 +40,7 @@ TResult ==
        [] sc.op = "spec_reuse" -> /\ Cur.ok
                                   /\ Cur.cproc = "/verif.v1.B/Second" /\ Cur.cisclient /\ Cur.cstype = 0
                                   /\ Cur.hproc = Cur.cproc /\ ~Cur.hisclient /\ Cur.hstype = Cur.cstype
+       [] sc.op = "errmeta_limit" -> ~Cur.ok /\ Cur.code \in 1..16 /\ Cur.meta = <<"m1", "m2">>
        \* the timeout that goes out with the request is what is left THEN (waited_ms after the stream was created):
        \* never longer, and shorter by little (granularity + the time between computing the header and sending it)
        [] sc.op = "deadline_wait" ->
